@@ -51,6 +51,9 @@ from rsparse import Source, ParseError, find_loops, mask, line_of, match_close, 
 VERIF = os.path.dirname(os.path.dirname(os.path.abspath(__file__)))
 
 
+_RUST_WORDS = {"if", "while", "for", "match", "return", "loop", "fn", "let", "Some", "None", "Ok", "Err", "assert", "proof", "forall", "exists", "drop", "matches"}
+
+
 class Undecided(Exception):
     """Extraction could not be completed (lost anchor, unsupported construct)."""
 
@@ -376,6 +379,11 @@ class Gen:
             names = set()
             for p in self.unit.get("prelude", []):
                 names.update(re.findall(r"\bfn\s+(\w+)", open(os.path.join(VERIF, "vx", "prelude", p)).read()))
+            for sp in self.unit.get("spec", []):
+                names.update(re.findall(r"\bfn\s+(\w+)", open(os.path.join(self.udir, sp)).read()))
+            for it in self.unit["items"]:
+                if it[0] == "raw":
+                    names.update(re.findall(r"\bfn\s+(\w+)", it[1]))
             for it in self.unit["items"]:
                 if it[0] == "fn":
                     names.add(it[2])
@@ -399,13 +407,13 @@ class Gen:
         for _ in range(6):
             mb = mask(body)
             hit = None
-            for mm in re.finditer(r"(?<![\w.])(\w+\s*\.|Self\s*::)\s*(\w+)\s*\(", mb):
+            for mm in re.finditer(r"(?<![\w.:!])(\w+\s*\.|Self\s*::|)\s*\b(\w+)\s*\(", mb):
                 name = mm.group(2)
-                if name in known:
+                if name in known or (mm.group(1) == "" and (name in _RUST_WORDS or name[0].isupper())):
                     continue
                 found = None
                 for alias in list(self.unit["sources"]):
-                    for cont in containers:
+                    for cont in (containers if mm.group(1) else [None]):
                         try:
                             src = self.src(alias)
                             found = (src, src.find_fn(name, cont))
@@ -420,8 +428,9 @@ class Gen:
                 hsig = src.text[f["start"]:f["body_open"]]
                 hbody = src.text[f["body_open"] + 1:f["end"] - 1].strip()
                 hm = mask(hbody)
-                if re.search(r";|\blet\b|\breturn\b|\?|\bloop\b|\bwhile\b|\bfor\b", hm):
+                if re.search(r"\breturn\b|\?|\bloop\b|\bwhile\b|\bfor\b|\bunsafe\b", hm):
                     continue
+                is_block = bool(re.search(r";|\blet\b", hm))
                 pm = re.search(r"\bfn\s+%s\s*(<[^>]*>)?\s*\(" % re.escape(name), mask(hsig))
                 if not pm:
                     continue
@@ -430,7 +439,10 @@ class Gen:
                 params = [x.strip() for x in split_top_level(mask(ptxt), ptxt, ",") if x.strip()]
                 is_method = bool(params) and re.fullmatch(r"&?\s*(mut\s+)?self", params[0]) is not None
                 recv = mm.group(1).rstrip(". \t\n")
-                if is_method == mm.group(1).startswith("Self"):
+                if mm.group(1) == "":
+                    if is_method:
+                        continue
+                elif is_method == mm.group(1).startswith("Self"):
                     continue
                 pnames = []
                 ok = True
@@ -444,21 +456,26 @@ class Gen:
                 cl = match_close(mb, op)
                 atxt = body[op + 1:cl]
                 args = [x.strip() for x in split_top_level(mask(atxt), atxt, ",") if x.strip()]
-                if not ok or len(args) != len(pnames) or not all(re.fullmatch(r"&?\s*(mut\s+)?\*?[\w.]+(\(\))?", a_) for a_ in args):
+                if not ok or len(args) != len(pnames) or not all(re.fullmatch(r"&?\s*(mut\s+)?\*?[\w.]+(\(\))?(\s+as\s+\w+)?", a_) for a_ in args):
                     continue
+                if is_block:
+                    # a block body is inlined as a block expression; its own `let` names must not capture a name used in an argument
+                    lets = set(re.findall(r"\blet\s+(?:mut\s+)?(\w+)", hm))
+                    if any(re.search(r"\b%s\b" % re.escape(l_), a_) for l_ in lets for a_ in args):
+                        continue
                 new = hbody
                 if is_method and recv != "self":
                     new = re.sub(r"(?<![\w.])self\b", recv, new)
                 for pn, a_ in zip(pnames, args):
                     new = re.sub(r"(?<![\w.])%s\b" % re.escape(pn), "(" + a_ + ")", new)
-                hit = (mm.start(), cl + 1, "(" + new + ")", name, src.path)
+                hit = (mm.start(), cl + 1, ("({ " + new + " })") if is_block else ("(" + new + ")"), name, src.path)
                 break
             if not hit:
                 return body
             a, b, new, name, hpath = hit
             self.fidelity.append(dict(rule="R-inline", file=path, line=body_line + body.count("\n", 0, a), item=key,
                                       before=re.sub(r"\s+", " ", body[a:b]), after=re.sub(r"\s+", " ", new),
-                                      trusted="nothing (beta-reduction of the one-expression helper %s from %s, which the unit does not list)" % (name, hpath)))
+                                      trusted="nothing (beta-reduction of the loop-free, return-free helper %s from %s, which the unit does not list)" % (name, hpath)))
             body = body[:a] + new + body[b:]
         return body
 
